@@ -68,7 +68,7 @@ class RuleGen:
                 l.args[i] = a
                 return cond
         l = self.r.choice(leaves)
-        p = self.pg.path(doc, max_len=2, mods_p=0.5)
+        p = self.pg.path(doc, max_len=3, mods_p=0.6)
         pos = bool(l.args and (not l.kwargs or self.r.random() < 0.6))
         i = self.r.randrange(len(l.args)) if pos else self.r.choice(list(l.kwargs))
         lit = l.args[i] if pos else l.kwargs[i]
@@ -120,4 +120,11 @@ class RuleGen:
         rules = [self.rule(doc, cast_p=cast_p) for _ in range(n_rules)]
         if rules and self.r.random() < 0.3:
             rules.insert(self.r.randint(0, len(rules)), self.sibling(self.r.choice(rules), doc, cast_p))
+        if rules and self.r.random() < 0.1:
+            # the same rule twice (or with the operands of its top combination commuted: equal, yet another object)
+            import copy as _copy
+            dup = _copy.deepcopy(self.r.choice(rules))
+            if isinstance(dup.cond, Bin) and self.r.random() < 0.5:
+                dup.cond.a, dup.cond.b = dup.cond.b, dup.cond.a
+            rules.insert(self.r.randint(0, len(rules)), dup)
         return rules
